@@ -416,6 +416,9 @@ func (p *PathRun) ensureInit(th *Thread, pkg *ssa.Package) {
 	p.initDone[path] = true
 	if skipInitPkgs[path] {
 		p.poisonGlobals(pkg, "package "+path+" is not initialised by the engine", false)
+		if h := skipInitHooks[path]; h != nil {
+			h(p, th, pkg)
+		}
 		return
 	}
 	pkg.Build()
